@@ -690,6 +690,11 @@ class Models:
                 if hasattr(p, 'call_method') else None
             if r is not None:
                 return r
+        if isinstance(recv, (VRefSeq, VSeq, VListC)) and name in (
+                'replace', 'lower', 'upper', 'startswith', 'endswith',
+                'format', 'strip', 'split', 'join'):
+            # a str method on a list (node.value of a collection node)
+            return [(st, Raise(VExc('AttributeError', (), line)))]
         raise Unsupported('method %s on %s' % (name, type(recv).__name__),
                           node)
 
